@@ -33,7 +33,8 @@ pub enum Call {
 }
 
 #[derive(Clone, Debug)]
-pub struct Script { pub mode: TransportMode, pub bad_bind: bool, pub trxs: Vec<(MediaKind, TransceiverDirection)>, pub calls: Vec<Call> }
+/// `trxs`: pre-added transceivers `(kind, direction, with_track)`; with_track = added through `add_track` (a sender exists)
+pub struct Script { pub mode: TransportMode, pub bad_bind: bool, pub trxs: Vec<(MediaKind, TransceiverDirection, bool)>, pub calls: Vec<Call> }
 
 fn mode_ch(m: &TransportMode) -> char { match m { TransportMode::WebRtc => 'w', TransportMode::Srtp => 's', TransportMode::Rtp => 'r' } }
 fn kind_ch(k: MediaKind) -> char { match k { MediaKind::Audio => 'a', MediaKind::Video => 'v', MediaKind::Application => 'd', MediaKind::Image => 'i' } }
@@ -60,7 +61,7 @@ pub fn call_text(c: &Call) -> String {
 }
 pub fn script_text(s: &Script) -> String {
     format!("{}{}/{}/{}", mode_ch(&s.mode), if s.bad_bind { "!" } else { "" },
-        s.trxs.iter().map(|(k, d)| format!("{}{}", kind_ch(*k), dir_ch(*d))).collect::<Vec<_>>().join(","),
+        s.trxs.iter().map(|(k, d, t)| format!("{}{}{}", kind_ch(*k), dir_ch(*d), if *t { "t" } else { "" })).collect::<Vec<_>>().join(","),
         s.calls.iter().map(call_text).collect::<Vec<_>>().join(";"))
 }
 pub fn parse_call(t: &str) -> Call {
@@ -87,7 +88,7 @@ pub fn parse_script(s: &str) -> Script {
     let p: Vec<&str> = s.split('/').collect();
     let mode = match &p[0][..1] { "w" => TransportMode::WebRtc, "s" => TransportMode::Srtp, _ => TransportMode::Rtp };
     let bad_bind = p[0].ends_with('!');
-    let trxs = p[1].split(',').filter(|x| !x.is_empty()).map(|x| { let c: Vec<char> = x.chars().collect(); (parse_kind(c[0]), parse_dir(c[1])) }).collect();
+    let trxs = p[1].split(',').filter(|x| !x.is_empty()).map(|x| { let c: Vec<char> = x.chars().collect(); (parse_kind(c[0]), parse_dir(c[1]), c.len() > 2 && c[2] == 't') }).collect();
     let calls = p[2].split(';').filter(|x| !x.is_empty()).map(parse_call).collect();
     Script { mode, bad_bind, trxs, calls }
 }
@@ -122,9 +123,11 @@ pub fn pool(_mode: &TransportMode) -> Vec<DescSpec> {
         /* 11 */ { let mut d = DescSpec::new(vec![a0.clone(), v1.clone()]); d.session_version = 3; d.sections[1].dir = "inactive"; d.sections[0].codecs = vec![pcmu()]; d },
         /* 12 */ DescSpec::new(vec![application(Some("0"))]),
         /* 13 */ DescSpec::new(vec![]),
+        /* 14 */ { let mut a = a0.clone(); a.mid = Some("65535".into()); let mut b = audio(Some("3"), vec![pcmu()]); b.dir = "recvonly";
+                   let mut d = DescSpec::new(vec![a, b]); d.bundle = false; d },
     ]
 }
-pub const NPOOL: usize = 14;
+pub const NPOOL: usize = 15;
 
 fn parse_desc(ty: SdpType, text: &str) -> SessionDescription {
     SessionDescription::parse(ty, text).expect("harness-generated SDP must parse")
@@ -249,8 +252,9 @@ fn desc_token(t: &mut Tables, d: &SessionDescription) -> String {
         let ip_ok = parts.len() >= 3 && parts[0] == "IN" && parts[2].parse::<std::net::IpAddr>().is_ok();
         let a4 = ip_ok && parts[1] == "IP4";
         let aa = ip_ok && matches!(parts[1], "IP4" | "IP6");
-        format!("{},{},{},{},{},{},{},{}", kind_name(m.kind), hx(&m.mid), sdir_name(m.direction),
-            if fmts.is_empty() { "_".into() } else { fmts.join("+") }, vals("rtpmap"), vals("extmap"), a4 as u8, aa as u8)
+        let su = m.attributes.iter().find(|a| a.key == "setup" && a.value.is_some()).and_then(|a| a.value.as_ref()).map(|v| hx(v)).unwrap_or("~".into());
+        format!("{},{},{},{},{},{},{},{},{}", kind_name(m.kind), hx(&m.mid), sdir_name(m.direction),
+            if fmts.is_empty() { "_".into() } else { fmts.join("+") }, vals("rtpmap"), vals("extmap"), a4 as u8, aa as u8, su)
     }).collect();
     let groups: Vec<String> = d.session.attributes.iter().filter(|a| a.key == "group")
         .map(|a| match &a.value { Some(v) => hx(v), None => "~".into() }).collect();
@@ -272,7 +276,8 @@ fn snap_text(t: &mut Tables, res: &str, s: &PeerSnapshot) -> String {
             match &x.mid { None => "-".to_string(), Some(m) => format!("={}", esc(m)) },
             tdir_name(x.direction), pm.join(","), em.join(","))
     }).collect();
-    format!("{}|{}|{}|{}|{}|{}:{}|{}", res, sig_text(s.signaling_state), l, r, s.next_mid, s.dtls_started as u8, fp, trx.join(";"))
+    let role = match s.dtls_role { None => "-", Some(true) => "c", Some(false) => "s" };
+    format!("{}|{}|{}|{}|{}|{}:{}:{}|{}", res, sig_text(s.signaling_state), l, r, s.next_mid, s.dtls_started as u8, fp, role, trx.join(";"))
 }
 
 // ------------------------------------------------------------------------------------------------
@@ -307,27 +312,51 @@ fn call_class(c: &Call) -> String {
     }
 }
 
-/// Errors raised by the socket / ICE layer (environment), as opposed to the signaling checks.
-fn is_env_error(e: &RtcError) -> bool {
-    let m = e.to_string();
-    m.contains("os error") || m.contains("No local candidates") || m.contains("socket bind failed") || m.contains("direct error")
+/// Everything observed of a connection: the H5 snapshot + the negotiated parameters held by senders / receivers.
+pub struct Observation { pub snap: PeerSnapshot, pub neg: Vec<rustrtc::verif_hooks::peer::NegotiatedSnapshot> }
+fn observe(pc: &PeerConnection) -> Observation { Observation { snap: pc.verif_snapshot(), neg: pc.verif_negotiated() } }
+
+/// The items the property names (signaling state, both descriptions, every transceiver's negotiated
+/// parameters incl. those held by its sender / receiver) and the connection-level negotiation state a
+/// rejected call must equally leave alone (mid counter, cached remote fingerprint, DTLS role).
+/// Returns the names of the fields that differ.
+fn diff_fields(a: &Observation, b: &Observation) -> Vec<&'static str> {
+    let mut v = vec![];
+    let mut add = |c: bool, n: &'static str| if c && !v.contains(&n) { v.push(n); };
+    let (x, y) = (&a.snap, &b.snap);
+    add(x.signaling_state != y.signaling_state, "signaling_state");
+    add(x.local_description.as_ref().map(canon_desc) != y.local_description.as_ref().map(canon_desc), "local_description");
+    add(x.remote_description != y.remote_description, "remote_description");
+    add(x.transceivers.len() != y.transceivers.len(), "transceivers");
+    for (p, q) in x.transceivers.iter().zip(y.transceivers.iter()) {
+        add(p.id != q.id, "transceivers");
+        add(p.mid != q.mid, "transceiver.mid");
+        add(p.direction != q.direction, "transceiver.direction");
+        add(p.payload_map != q.payload_map, "transceiver.payload_map");
+        add(p.extmap != q.extmap, "transceiver.extmap");
+    }
+    for (p, q) in a.neg.iter().zip(b.neg.iter()) {
+        add(p.sender_params != q.sender_params, "sender.params");
+        add(p.receiver_ssrc != q.receiver_ssrc, "receiver.ssrc");
+        add(p.receiver_rtx_ssrc != q.receiver_rtx_ssrc, "receiver.rtx_ssrc");
+        add(p.receiver_rtx_apt != q.receiver_rtx_apt, "receiver.rtx_apt");
+        add(p.receiver_simulcast_rids != q.receiver_simulcast_rids, "receiver.simulcast");
+    }
+    add(x.next_mid != y.next_mid, "next_mid");
+    add(x.remote_dtls_fingerprint != y.remote_dtls_fingerprint, "remote_dtls_fingerprint");
+    add(x.dtls_role != y.dtls_role, "dtls_role");
+    v
 }
 
-/// Fields of the snapshot the property names; returns the names of the fields that differ.
-fn diff_fields(a: &PeerSnapshot, b: &PeerSnapshot) -> Vec<&'static str> {
-    let mut v = vec![];
-    if a.signaling_state != b.signaling_state { v.push("signaling_state"); }
-    if a.local_description.as_ref().map(canon_desc) != b.local_description.as_ref().map(canon_desc) { v.push("local_description"); }
-    if a.remote_description != b.remote_description { v.push("remote_description"); }
-    if a.transceivers.len() != b.transceivers.len() { v.push("transceivers"); }
-    for (x, y) in a.transceivers.iter().zip(b.transceivers.iter()) {
-        if x.id != y.id && !v.contains(&"transceivers") { v.push("transceivers"); }
-        if x.mid != y.mid && !v.contains(&"transceiver.mid") { v.push("transceiver.mid"); }
-        if x.direction != y.direction && !v.contains(&"transceiver.direction") { v.push("transceiver.direction"); }
-        if x.payload_map != y.payload_map && !v.contains(&"transceiver.payload_map") { v.push("transceiver.payload_map"); }
-        if x.extmap != y.extmap && !v.contains(&"transceiver.extmap") { v.push("transceiver.extmap"); }
-    }
-    v
+/// Where an environment (socket / ICE layer) error was raised — part of the signature, so that a new
+/// failure site in the same (call, state) cell is a different signature.
+fn env_site(e: &RtcError) -> Option<&'static str> {
+    let m = e.to_string();
+    if m.contains("RTP socket bind failed") { Some("offer-socket-bind") }
+    else if m.contains("RTP direct error") { Some("rtp-media-transport-bind") }
+    else if m.contains("ICE direct error: No local candidates") { Some("srtp-start-direct-no-candidate") }
+    else if m.contains("os error") || m.contains("direct error") { Some("other-io") }
+    else { None }
 }
 
 // ------------------------------------------------------------------------------------------------
@@ -355,12 +384,22 @@ pub async fn exec(sc: &Script) -> Outcome {
     let mut fails = vec![];
     let (mut n_err, mut n_ok) = (0, 0);
     let mut states = vec![];
-    for (k, d) in &sc.trxs { pc.add_transceiver(*k, *d); }
+    let mut keep = vec![];
+    for (k, d, with_track) in &sc.trxs {
+        if *with_track {
+            let (src, track, fb) = rustrtc::media::track::sample_track(
+                if *k == MediaKind::Video { rustrtc::media::frame::MediaKind::Video } else { rustrtc::media::frame::MediaKind::Audio }, 16);
+            let params = if *k == MediaKind::Video { rustrtc::RtpCodecParameters { payload_type: 96, name: "VP8".into(), clock_rate: 90000, channels: 0 } }
+                         else { rustrtc::RtpCodecParameters { payload_type: 111, name: "opus".into(), clock_rate: 48000, channels: 2 } };
+            let _ = pc.add_track(track, params);
+            keep.push((src, fb));
+        } else { pc.add_transceiver(*k, *d); }
+    }
     let init = pc.verif_snapshot();
     outs.push(snap_text(&mut t, "ok", &init));
     let mut spec = SignalingState::Stable;
     for (i, call) in sc.calls.iter().enumerate() {
-        let before = pc.verif_snapshot();
+        let before = observe(&pc);
         let resolve = |src: &Src, ty: SdpType, pc: &PeerConnection, last: &Option<SessionDescription>| -> SessionDescription {
             let mut d = match src {
                 Src::Last => last.clone().unwrap_or_else(|| parse_desc(ty, &render(&sc.mode, &pool[0]))),
@@ -393,23 +432,41 @@ pub async fn exec(sc: &Script) -> Outcome {
             }
         };
         if let Some(d) = &last_created { t.desc_id(d); }
-        let after = pc.verif_snapshot();
+        let after = observe(&pc);
         let rtxt = match &res { Ok(()) => "ok", Err(e) => err_text(e) };
         toks.push(tok);
-        outs.push(snap_text(&mut t, rtxt, &after));
-        states.push(after.signaling_state);
+        outs.push(snap_text(&mut t, rtxt, &after.snap));
+        states.push(after.snap.signaling_state);
         // ---- oracles
         let cls = call_class(call);
-        let st = sig_text(before.signaling_state);
+        let st = sig_text(before.snap.signaling_state);
         match &res {
             Err(e) => {
                 n_err += 1;
                 let changed = diff_fields(&before, &after);
-                if is_env_error(e) {
-                    // one class per call site: the socket / ICE layer failed after the description was applied
+                if let Some(site) = env_site(e) {
+                    // environment failure: one signature per call, state, transport mode, failure site AND exact set of fields left changed
                     if !changed.is_empty() {
-                        fails.push((format!("atom:{cls}:{st}:io-failure-after-apply"),
-                            format!("call #{i} `{}` returned Err({e}) but {} changed", call_text(call), changed.join(", "))));
+                        // which groups of state were left changed (fixed order): the signature of a failure site
+                        let group = |f: &str| match f {
+                            "signaling_state" => "state", "local_description" => "local", "remote_description" => "remote",
+                            "next_mid" | "remote_dtls_fingerprint" | "dtls_role" => "conn",
+                            x if x.starts_with("sender.") || x.starts_with("receiver.") => "senders-receivers",
+                            _ => "transceivers" };
+                        let groups: Vec<&str> = ["state", "local", "remote", "transceivers", "senders-receivers", "conn"].into_iter()
+                            .filter(|g| changed.iter().any(|f| group(f) == *g)).collect();
+                        // what each failing site is KNOWN to leave behind (an upper bound: which of these groups actually differ
+                        // depends on the history). Anything outside the bound — in particular the signaling state and the local
+                        // description, or more than the connection counters for the SRTP site — is a new defect.
+                        let allowed: &[&str] = match site {
+                            "rtp-media-transport-bind" => &["remote", "transceivers", "senders-receivers", "conn"],
+                            "srtp-start-direct-no-candidate" => &["conn"],
+                            "offer-socket-bind" => &["transceivers", "conn"],
+                            _ => &[] };
+                        let extra: Vec<&str> = groups.iter().copied().filter(|g| !allowed.contains(g)).collect();
+                        let sig = if extra.is_empty() { format!("atom:{cls}:{st}:{}:{site}", mode_ch(&sc.mode)) }
+                                  else { format!("atom:{cls}:{st}:{}:{site}:unexpected:{}", mode_ch(&sc.mode), extra.join("+")) };
+                        fails.push((sig, format!("call #{i} `{}` returned Err({e}) but {} changed", call_text(call), changed.join(", "))));
                     }
                 } else {
                     for f in changed {
@@ -425,16 +482,16 @@ pub async fn exec(sc: &Script) -> Outcome {
                 }
             }
         }
-        if after.signaling_state != spec {
-            let q = if matches!(&res, Err(e) if is_env_error(e)) { ":io-failure-after-apply" } else { "" };
-            fails.push((format!("spec:state-differs:{cls}:{st}{q}"), format!("after call #{i} `{}` the reported state is {} but the JSEP machine is in {}",
-                call_text(call), sig_text(after.signaling_state), sig_text(spec))));
-            spec = after.signaling_state; // resynchronise: report each divergence once
+        if after.snap.signaling_state != spec {
+            fails.push((format!("spec:state-differs:{cls}:{st}"), format!("after call #{i} `{}` the reported state is {} but the JSEP machine is in {}",
+                call_text(call), sig_text(after.snap.signaling_state), sig_text(spec))));
+            spec = after.snap.signaling_state; // resynchronise: report each divergence once
         }
     }
     pc.close();
+    drop(keep);
     let input = format!("{} {}{} {} {}", script_text(sc), mode_ch(&sc.mode), if sc.bad_bind { "!" } else { "" },
-        if sc.trxs.is_empty() { "_".to_string() } else { sc.trxs.iter().map(|(k, d)| format!("{},{}", kind_name(*k), tdir_name(*d))).collect::<Vec<_>>().join(";") },
+        if sc.trxs.is_empty() { "_".to_string() } else { sc.trxs.iter().map(|(k, d, t)| format!("{},{}", kind_name(*k), if *t { "sr" } else { tdir_name(*d) })).collect::<Vec<_>>().join(";") },
         toks.join(" "));
     Outcome { input, output: outs.join(" "), fails, n_err, n_ok, states }
 }
@@ -459,6 +516,39 @@ fn alphabet() -> Vec<Call> {
         Call::SetLocal(Src::Last, Rollback),
         Call::SetRemote(Src::Pool(8), Offer),
         Call::Close,
+    ]
+}
+
+/// second exhaustive family: three pre-added transceivers (one with a sender), multi-section / mid-less / named-mid /
+/// data / simulcast / RTX / SSRC descriptions — `used_indices`, all three matching stages, transceiver creation,
+/// `answerOrder = none`, the mid-less re-offer branch, BUNDLE-tag selection, the u16 edge of the mid counter
+fn alphabet_b() -> Vec<Call> {
+    use SdpType::*;
+    vec![
+        Call::CreateOffer,
+        Call::CreateAnswer,
+        Call::SetLocal(Src::Last, Offer),
+        Call::SetLocal(Src::Last, Answer),
+        Call::SetRemote(Src::Pool(1), Offer),
+        Call::SetRemote(Src::AnswerTo(0), Answer),
+        Call::SetRemote(Src::Pool(11), Offer),
+        Call::SetRemote(Src::Pool(3), Offer),
+        Call::SetRemote(Src::Pool(4), Offer),
+        Call::SetRemote(Src::Pool(9), Offer),
+        Call::SetLocal(Src::Modified(1), Offer),
+        Call::SetRemote(Src::Pool(14), Offer),
+        Call::Close,
+    ]
+}
+fn trxs_b() -> Vec<(MediaKind, TransceiverDirection, bool)> {
+    vec![(MediaKind::Audio, TransceiverDirection::SendRecv, true), (MediaKind::Video, TransceiverDirection::RecvOnly, false),
+         (MediaKind::Audio, TransceiverDirection::Inactive, false)]
+}
+fn prefixes_b() -> Vec<(&'static str, Vec<Call>)> {
+    use SdpType::*;
+    vec![
+        ("fresh", vec![]),
+        ("negotiated_answerer", vec![Call::SetRemote(Src::Pool(1), Offer), Call::CreateAnswer, Call::SetLocal(Src::Last, Answer)]),
     ]
 }
 
@@ -533,7 +623,7 @@ pub fn run(args: &Args) {
     }
     let mut run = Run::new("c09", &args.out);
     let modes = [TransportMode::WebRtc, TransportMode::Srtp, TransportMode::Rtp];
-    let base_trx = vec![(MediaKind::Audio, TransceiverDirection::SendRecv)];
+    let base_trx = vec![(MediaKind::Audio, TransceiverDirection::SendRecv, false)];
     // (1) exhaustive call sequences over the alphabet, on fresh and negotiated connections, 3 modes
     let al = alphabet();
     let len = if args.tier_thorough { 4 } else { 3 };
@@ -560,15 +650,29 @@ pub fn run(args: &Args) {
             run.count_n(&format!("exhaustive_len{}_{}_{}", len, mode_ch(mode), pname), n as u64);
         }
     }
+    // (1b) second exhaustive family (length 3; WebRTC and RTP modes)
+    let alb = alphabet_b();
+    let nb = alb.len().pow(3);
+    for mode in [TransportMode::WebRtc, TransportMode::Rtp] {
+        for (pname, pre) in prefixes_b() {
+            for idx in 0..nb {
+                let mut calls = pre.clone();
+                let mut k = idx;
+                for _ in 0..3 { calls.push(alb[k % alb.len()].clone()); k /= alb.len(); }
+                emit(&mut run, &mut rt, &Script { mode: mode.clone(), bad_bind: false, trxs: trxs_b(), calls });
+            }
+            run.count_n(&format!("exhaustiveB_len3_{}_{}", mode_ch(&mode), pname), nb as u64);
+        }
+    }
     // (2) random longer sequences: all pool descriptions, changed / malformed descriptions, transceiver
     //     configurations, transport-started condition
     let mut rng = Rng::new(args.seed);
     let nrand = if args.tier_thorough { 6000 } else { 600 };
-    let cfgs: Vec<Vec<(MediaKind, TransceiverDirection)>> = vec![
-        vec![], base_trx.clone(),
-        vec![(MediaKind::Audio, TransceiverDirection::SendRecv), (MediaKind::Video, TransceiverDirection::SendRecv)],
-        vec![(MediaKind::Video, TransceiverDirection::RecvOnly), (MediaKind::Application, TransceiverDirection::SendRecv)],
-        vec![(MediaKind::Audio, TransceiverDirection::SendOnly), (MediaKind::Audio, TransceiverDirection::Inactive), (MediaKind::Video, TransceiverDirection::SendRecv)],
+    let cfgs: Vec<Vec<(MediaKind, TransceiverDirection, bool)>> = vec![
+        vec![], base_trx.clone(), trxs_b(),
+        vec![(MediaKind::Audio, TransceiverDirection::SendRecv, true), (MediaKind::Video, TransceiverDirection::SendRecv, true)],
+        vec![(MediaKind::Video, TransceiverDirection::RecvOnly, false), (MediaKind::Application, TransceiverDirection::SendRecv, false)],
+        vec![(MediaKind::Audio, TransceiverDirection::SendOnly, false), (MediaKind::Audio, TransceiverDirection::Inactive, false), (MediaKind::Video, TransceiverDirection::SendRecv, false)],
     ];
     for _ in 0..nrand {
         let mode = rng.pick(&modes).clone();
@@ -590,15 +694,20 @@ pub fn run(args: &Args) {
         emit(&mut run, &mut rt, &Script { mode: TransportMode::Rtp, bad_bind: true, trxs: base_trx.clone(), calls });
     }
     run.count_n(&format!("bind_fails_exhaustive_len{blen}_r"), al.len().pow(blen as u32) as u64);
+    for idx in 0..alb.len().pow(2) {
+        let calls = vec![alb[idx % alb.len()].clone(), alb[idx / alb.len()].clone()];
+        emit(&mut run, &mut rt, &Script { mode: TransportMode::Rtp, bad_bind: true, trxs: trxs_b(), calls });
+    }
+    run.count_n("bind_fails_exhaustiveB_len2_r", alb.len().pow(2) as u64);
     for sc in ["r!/a0,v0/srP1o;ca", "r!/a0/slP0o;srA0a", "r!/a0/slP0o;srA0p;srA0a", "r!//srP12o;ca", "r!/a0/srP13o", "r!/a0/srP3o;ca",
                "r!/a0,a0/srP9o;ca", "r!/v0/srP4o;ca", "r!/a0/slP0o;srA0a;srP11o", "s!/a0/co", "s!/a0/srP0o;ca", "s!/a0/slP0o;srA0a",
-               "w!/a0/co;slLo;srA0a", "w!/a0/srP0o;ca;slLa"] {
+               "s!/a0t,v2/co", "s!/a0t,v2/srP1o", "s!/a0/slP0o;srA0p", "w!/a0/co;slLo;srA0a", "w!/a0/srP0o;ca;slLa"] {
         emit(&mut run, &mut rt, &parse_script(sc));
         run.count("bind_fails_directed");
     }
     run.exhaustive = true;
     run.notes.insert("exhaustive_scope".into(), serde_json::json!(format!(
-        "all {}^{} call sequences over a {}-symbol alphabet after each of 4 prefixes (fresh / negotiated as offerer / negotiated as answerer / negotiated and transport started) in 3 transport modes",
-        al.len(), len, al.len())));
+        "family A (one audio transceiver): all {}^{} call sequences over a {}-symbol alphabet after each of 4 prefixes (fresh / negotiated as offerer / negotiated as answerer / negotiated and transport started) in 3 transport modes; family B (three transceivers, one with a sender; multi-section, mid-less, named-mid, data, RTX, simulcast, SSRC, mid 65535 descriptions): all {}^3 sequences after 2 prefixes in WebRTC and RTP mode; failing-bind environment: RTP mode, both alphabets",
+        al.len(), len, al.len(), alb.len())));
     run.finish();
 }
